@@ -295,12 +295,14 @@ def _sample_cases(q):
                 if q and dtype == 'i8' and p > 2:
                     continue
                 if p == 1:
-                    spec = ('grid', 4 if q else 5)
+                    spec = ('grid', 4 if (q or n >= 5) else 5)
                 elif p == 2:
                     spec = ('pat', 5 if q else 7)
                 else:
-                    spec = ('pat', 3 if q else (4 if p == 3 else 3))
+                    spec = ('pat', 3 if q else (4 if p == 3 else 2))
                 for order in orders:
+                    if q and dtype == 'i8' and order == 'rsorted':
+                        continue
                     weights = _weight_kinds(n)
                     if not q and dtype == 'f8' and order == 'dfirst':
                         # thorough: the complete weight-vector product on one (dtype, insertion order) slice
@@ -633,7 +635,7 @@ def _hist_objects(q):
     objs = []
     for names in (['a'], ['b', 'a'], ['c', 'a', 'b']) if q else (['a'], ['a', 'b'], ['b', 'a'], ['c', 'a', 'b'],
                                                                 ['t10', 't2']):
-        for n in (1, 3) if q else (1, 2, 4):
+        for n in (1, 3) if q else (1, 4):
             for w in ('none', 'frac') if q else ('none', 'skew', 'zero', 'frac'):
                 for dtype, meta in (('f8', 'np'), ('i8', 'py')) if q else (('f8', 'np'), ('f8', 'py'), ('i8', 'np')):
                     objs.append({'cls': 'Sample', 'names': names, 'n': n, 'w': w, 'dtype': dtype, 'meta': meta,
